@@ -63,6 +63,9 @@ type Scenario struct {
 	// then yields the processor Spin times before it returns, so that the close path advances as
 	// far as it can while the callback is still in progress).
 	CBClose *CBClose `json:"cb_close,omitempty"`
+	// BackChan: the stream also offers a back channel; readers over udp / tcp ask for back channels and
+	// keep writing to it while they play, until the moment they are closed.
+	BackChan bool `json:"back_chan,omitempty"`
 	// ReqClose: a Close issued from inside a request callback (the application closes the stream,
 	// the session or the server while it handles a request).
 	ReqClose *ReqClose `json:"req_close,omitempty"`
@@ -190,6 +193,9 @@ func gen(seed uint64, tier string) Scenario {
 			sc.StreamCloseUS = p.StartUS + int(3+(x>>8)%10)*rtt + int((x>>16)%uint64(rtt+1))
 		}
 	}
+	if x := core.HS(seed, "c13.backchan", "", 0); x%100 < 15 {
+		sc.BackChan = true
+	}
 	if x := core.HS(seed, "c13.reqclose", "", 0); x%100 < 25 {
 		rc := &ReqClose{Kind: []string{"stream", "stream", "session", "server", "conn"}[(x>>8)%5],
 			CB:  []string{"setup", "setup", "play", "describe", "record", "pause", "announce"}[(x>>16)%7],
@@ -316,7 +322,7 @@ func run(t *testing.T, sc Scenario) *core.Result {
 	}
 	var summary map[string]any
 	res := sys.Run(t, opts, func(w *sys.World) {
-		w.ProbeInit("server_close_mid_run", "stream_close_mid_run", "client_close_concurrent", "client_close_mid_handshake", "close_inside_packet_callback", "close_inside_request_callback", "server_side_stalled", "multicast_reader",
+		w.ProbeInit("server_close_mid_run", "stream_close_mid_run", "client_close_concurrent", "client_close_mid_handshake", "close_inside_packet_callback", "close_inside_request_callback", "server_side_stalled", "back_channel_offered", "back_channel_writer", "multicast_reader",
 			"client_close_while_playing", "client_close_while_recording", "close_with_stalled_peer", "peer_vanished",
 			"server_close_with_sessions", "census_attributed_goroutines", "publisher", "secure", "session_closed_by_timeout_or_peer")
 		owners := core.NewOwners(classify)
@@ -348,6 +354,11 @@ func run(t *testing.T, sc Scenario) *core.Result {
 			return
 		}
 		desc := mkDesc()
+		if sc.BackChan {
+			a := &format.G711{PayloadTyp: 8, MULaw: false, SampleRate: 8000, ChannelCount: 1}
+			desc.Medias = append(desc.Medias, &description.Media{Type: description.MediaTypeAudio, IsBackChannel: true, Formats: []format.Format{a}})
+			w.Probe("back_channel_offered")
+		}
 		stream := &gortsplib.ServerStream{Server: srv, Desc: desc}
 		if err := stream.Initialize(); err != nil {
 			w.Fail("c13/api-error server", "ServerStream.Initialize: %v", err)
@@ -510,6 +521,9 @@ func run(t *testing.T, sc Scenario) *core.Result {
 			n := sc.DurUS / sc.IntUS
 			for c := 0; c < n; c++ {
 				for mi, m := range desc.Medias {
+					if m.IsBackChannel {
+						continue // the server does not write to a back channel
+					}
 					pkt := &rtp.Packet{Header: rtp.Header{Version: 2, PayloadType: m.Formats[0].PayloadType(), SequenceNumber: uint16(c), Timestamp: uint32(c * 3000)},
 						Payload: make([]byte, 20+int(core.H(sc.Seed, "sz", uint64(c), uint64(mi))%900))}
 					stream.WritePacketRTP(m, pkt) //nolint:errcheck
@@ -533,6 +547,9 @@ func run(t *testing.T, sc Scenario) *core.Result {
 			node := w.Net.Node(name, ip)
 			c := &gortsplib.Client{Scheme: scheme, Host: "10.0.0.1:8554", Tunnel: tunnelOf(p.Transport), Protocol: protoOf(p.Transport),
 				ReadTimeout: ms(sc.ReadTO), WriteTimeout: ms(sc.WriteTO), WriteQueueSize: sc.WQ}
+			if sc.BackChan && p.Role == "read" && (p.Transport == "udp" || p.Transport == "tcp") {
+				c.RequestBackChannels = true
+			}
 			if sc.Secure {
 				c.TLSConfig = sys.ClientTLSConfig()
 			}
@@ -672,6 +689,31 @@ func run(t *testing.T, sc Scenario) *core.Result {
 						return
 					}
 					setState("playing")
+					if c.RequestBackChannels {
+						// talk back until the client is closed (the last datagrams are still in flight then)
+						var back *description.Media
+						for _, m := range medias {
+							if m.IsBackChannel {
+								back = m
+							}
+						}
+						if back != nil {
+							w.Probe("back_channel_writer")
+							go func() {
+								for k := 0; k < 5000; k++ {
+									if err := c.WritePacketRTP(back, &rtp.Packet{Header: rtp.Header{Version: 2, PayloadType: 8, SequenceNumber: uint16(k), Timestamp: uint32(k) * 160}, Payload: make([]byte, 80)}); err != nil &&
+										!strings.Contains(err.Error(), "queue is full") {
+										return
+									}
+									select {
+									case <-closeDone: // the client has been closed (the packet just written may still be in flight)
+										return
+									case <-time.After(us(sc.IntUS) + time.Duration(core.H(sc.Seed, "bk", uint64(k))%991)):
+									}
+								}
+							}()
+						}
+					}
 				} else {
 					if _, err := c.Record(); err != nil {
 						setState("failed")
